@@ -176,7 +176,9 @@ def show(t, depth=0):
     if k == "str":
         return repr(t[1])
     if k == "loopvar":
-        return "loopvar(bb%d,_%d)" % (t[1], t[2])
+        if isinstance(t[1], int) and isinstance(t[2], int):
+            return "loopvar(bb%d,_%d)" % (t[1], t[2])
+        return "loopvar(%s,%s)" % (t[1] if not isinstance(t[1], tuple) else "/".join(str(x) for x in t[1]), show(t[2], d) if isinstance(t[2], tuple) else t[2])
     if k == "index":
         return "%s[%s]" % (show(t[1], d), show(t[2], d))
     return "%s(%s)" % (k, ", ".join(show(a, d) if isinstance(a, tuple) else str(a) for a in t[1:]))
